@@ -263,7 +263,13 @@ impl<'a> Evaluator<'a> {
                     SymbolData::Placeholder => None,
                 }))
             }
-            ExpressionFactor::Number { value: number, .. } => Ok(Some(number.data.value().into())),
+            ExpressionFactor::Number { value: number, .. } => match number.data.value() {
+                Some(value) => Ok(Some(value.into())),
+                None => self.error(
+                    number.span,
+                    format!("the literal '{}' does not fit in 64 bits", number.data),
+                ),
+            },
             ExpressionFactor::InterpolatedString(i) => {
                 Ok(Some(SymbolData::String(self.interpolate(i, track_usage)?)))
             }
